@@ -2,6 +2,7 @@ package checks
 
 import (
 	"fmt"
+	"strings"
 
 	"verif/explore"
 	"verif/hapi"
@@ -498,9 +499,39 @@ func c06Cases(quick bool) []EnumCase {
 	return out
 }
 
+// oracleMsHoldExpires (scenario millisecond-grant-vs-slot-sweep): the 3000 ms hold of request 2 is ended by EXPRIED
+// between 3000 ms and 5000 ms after its grant.
+func oracleMsHoldExpires(r *EngRun) []explore.Violation {
+	if r.Spec.Name != "millisecond-grant-vs-slot-sweep" {
+		return nil
+	}
+	var g, x int64 = -1, -1
+	for _, e := range r.Events {
+		if e.Req == 2 && e.Result == 0 && e.Cmd == 1 {
+			g = e.T
+		}
+		if e.Req == 2 && e.Result == 9 {
+			x = e.T
+		}
+	}
+	if g < 0 {
+		return nil
+	}
+	if x < 0 {
+		return []explore.Violation{{Sig: "C06:never-expires/granted-while-its-slot-is-swept", Msg: fmt.Sprintf("hold of request 2 (3000 ms, millisecond unit, granted at %d ms) was never ended although %d ms have passed", g/ms, (r.EndT-g)/ms)}}
+	}
+	if x-g < 3000*ms || x-g > 5000*ms {
+		return []explore.Violation{{Sig: "C06:expried/granted-while-its-slot-is-swept", Msg: fmt.Sprintf("hold of request 2 (3000 ms) was ended %d ms after its grant", (x-g)/ms)}}
+	}
+	return nil
+}
+
 // oracleHoldEndsOnce: the setup hold (request 9, LockId 1) is ended exactly once — by the unlock or by the
 // sweeper — when both race at the deadline tick.
 func oracleHoldEndsOnce(r *EngRun) []explore.Violation {
+	if !strings.HasPrefix(r.Spec.Name, "unlock-vs-expiry-tick") {
+		return nil
+	}
 	exp, unl := 0, 0
 	for _, e := range r.Events {
 		if e.Req == 9 && e.Result == 9 {
@@ -553,7 +584,11 @@ func init() {
 					Threads: [][]Step{{At(3000 * ms), C(U(1, 1, 1))}}, Unlock: ul},
 				{Name: "unlock-vs-expiry-tick-waiter", Cfg: cfg, Fine: true, Setup: []Step{C(L(9, 1, 1, 0, 1, 0, 0)), C(L(8, 1, 2, 9, 10, 0, 0))},
 					Threads: [][]Step{{At(3000 * ms), C(U(1, 1, 1))}}, Unlock: ul},
-			}, Oracles: []Oracle{oracleHoldEndsOnce, OracleC03, OracleC04Quiescent, OracleC17}, Bound: func(s *EngSpec, q bool) int {
+				// a millisecond-unit hold is granted in the very millisecond in which the sweeper of the slot it falls into
+				// (period 3000 ms = the whole wheel) is ending another hold
+				{Name: "millisecond-grant-vs-slot-sweep", Cfg: cfg, Fine: true, Setup: []Step{C(withEF(L(7, 1, 1, 0, 700, 0, 0), fMilli))},
+					Threads: [][]Step{{At(1800 * ms), C(withEF(L(2, 2, 2, 0, 3000, 0, 0), fMilli))}}, DrainTo: 8 * sec},
+			}, Oracles: []Oracle{oracleHoldEndsOnce, oracleMsHoldExpires, OracleC03, OracleC04Quiescent, OracleC17}, Bound: func(s *EngSpec, q bool) int {
 				if q {
 					return 2
 				}
